@@ -158,13 +158,14 @@ func checkC03(c *chk.Ctx) {
 	}
 	defer w.Close()
 	type rcase struct {
-		ex    *pipe.Exported
-		built *abs.Built
-		pkg   string
-		tsC   string // path of client module
-		tsS   string
-		doc   map[string]any
-		seg   *trace.Segment
+		ex     *pipe.Exported
+		built  *abs.Built
+		pkg    string
+		prefix string
+		tsC    string // path of client module
+		tsS    string
+		doc    map[string]any
+		seg    *trace.Segment
 	}
 	var cases []*rcase
 	var specs []work.PkgSpec
@@ -177,39 +178,92 @@ func checkC03(c *chk.Ctx) {
 		if err != nil {
 			c.Broken("bad exported case: %v", err)
 		}
-		rc := &rcase{ex: e, pkg: "gen/" + prefix}
-		em, err := w.Emit(set, e.Schema, work.EmitOpts{Plugins: plug.Names, Params: map[string]string{"openapiv3": "format=json"}})
+		rc := &rcase{ex: e, pkg: "gen/" + prefix, prefix: prefix}
+		rc.built, err = abs.Build(e.Schema)
 		if err != nil {
-			c.Broken("%v", err)
+			c.Broken("harness cannot express exported case %v: %v", e.Fv, err)
 		}
-		rc.built = em.Built
 		rc.seg = &trace.Segment{ID: len(cases), Meta: e, Lines: []string{schemaLine(e)}}
-		for _, p := range plug.Names {
-			if r := em.Results[p]; !r.OK() {
-				rp := c.WriteReplay(map[string]any{"property": c.ID, "stage": "generate", "plugin": p, "error": r.Error, "fv": e.Fv})
-				c.Violation(rp, fmt.Sprintf("%s refused the rule-free family schema %v: %s", p, e.Fv, firstN(r.Error, 300)))
-				c.Done()
+		cases = append(cases, rc)
+	}
+	// The Go and TS plugins see ALL the family's files in ONE invocation (every file its own proto and
+	// Go package; the order of the files follows the seed): a route must not depend on what else is
+	// generated in the same run.  openapiv3 names its documents by the service's short name, which all
+	// the family's services share, so it is invoked file by file.
+	ordered := append([]*rcase{}, cases...)
+	if c.Seed%2 == 1 {
+		for a, z := 0, len(ordered)-1; a < z; a, z = a+1, z-1 {
+			ordered[a], ordered[z] = ordered[z], ordered[a]
+		}
+	}
+	merged := &abs.Schema{}
+	for _, rc := range ordered {
+		merged.Files = append(merged.Files, rc.ex.Schema.Files...)
+	}
+	fourPlugins := []string{"go-http", "go-client", "ts-client", "ts-server"}
+	em, err := w.Emit(set, merged, work.EmitOpts{Plugins: fourPlugins})
+	if err != nil {
+		c.Broken("%v", err)
+	}
+	for _, p := range fourPlugins {
+		if r := em.Results[p]; !r.OK() {
+			rp := c.WriteReplay(map[string]any{"property": c.ID, "stage": "generate", "plugin": p, "error": r.Error})
+			c.Violation(rp, fmt.Sprintf("%s refused the rule-free family schemas (one invocation over %d files): %s", p, len(merged.Files), firstN(r.Error, 300)))
+			c.Done()
+		}
+	}
+	if c.Thorough() {
+		// lemma: what a plugin emits for a file is the same when the file is generated alone
+		for _, rc := range cases {
+			for _, p := range fourPlugins {
+				r := set.Run(p, rc.built.Request("", nil), plug.RunOpts{})
+				for _, f := range r.Files {
+					if g := em.Results[p].File(f.Name); g == nil || g.Content != f.Content {
+						rp := c.WriteReplay(map[string]any{"property": c.ID, "stage": "invocation shape", "plugin": p, "file": f.Name, "fv": rc.ex.Fv})
+						c.Violation(rp, fmt.Sprintf("%s emits %s differently when the file is generated alone and together with the family's other files", p, f.Name))
+					}
+				}
 			}
 		}
+	}
+	for _, rc := range cases {
 		for _, f := range em.Results["ts-client"].Files {
-			p := filepath.Join(w.Root, "ts", prefix, "client", f.Name)
+			if !strings.Contains("/"+f.Name, "/"+rc.prefix+"/") {
+				continue
+			}
+			p := filepath.Join(w.Root, "ts", rc.prefix, "client", f.Name)
 			_ = os.MkdirAll(filepath.Dir(p), 0o755)
 			_ = os.WriteFile(p, []byte(f.Content), 0o644)
 			rc.tsC = p
 		}
 		for _, f := range em.Results["ts-server"].Files {
-			p := filepath.Join(w.Root, "ts", prefix, "server", f.Name)
+			if !strings.Contains("/"+f.Name, "/"+rc.prefix+"/") {
+				continue
+			}
+			p := filepath.Join(w.Root, "ts", rc.prefix, "server", f.Name)
 			_ = os.MkdirAll(filepath.Dir(p), 0o755)
 			_ = os.WriteFile(p, []byte(f.Content), 0o644)
 			rc.tsS = p
 		}
-		for _, f := range em.Results["openapiv3"].Files {
+		r := set.Run("openapiv3", rc.built.Request("format=json", nil), plug.RunOpts{})
+		if !r.OK() {
+			rp := c.WriteReplay(map[string]any{"property": c.ID, "stage": "generate", "plugin": "openapiv3", "error": r.Error, "fv": rc.ex.Fv})
+			c.Violation(rp, fmt.Sprintf("openapiv3 refused the rule-free family schema %v: %s", rc.ex.Fv, firstN(r.Error, 300)))
+			c.Done()
+		}
+		for _, f := range r.Files {
 			if strings.HasSuffix(f.Name, ".json") {
 				_ = json.Unmarshal([]byte(f.Content), &rc.doc)
 			}
 		}
+		if rc.tsC == "" || rc.tsS == "" {
+			var names []string
+			for _, f := range em.Results["ts-client"].Files {
+				names = append(names, f.Name)
+			}
+			c.Broken("no TypeScript module emitted for %s (files: %v)", rc.prefix, firstN(fmt.Sprint(names), 300))
+		}
 		specs = append(specs, work.PkgSpec{ImportPath: "scratch/" + rc.pkg, Server: true, Client: true})
-		cases = append(cases, rc)
 	}
 	if err := w.WriteDriver("drv", specs); err != nil {
 		c.Broken("%v", err)
